@@ -864,7 +864,7 @@ it0
             proof { lemma_mono2(cp0, gc, gc + 1); lemma_mono2(cp0, gc + 1, self.n as int); }
             let ghost lo = cp0[gc] as int;
             let ghost hi = cp0[gc + 1] as int;
-//@after "let rowval = &mut self.rowval.as_mut_slice()[start..stop];"
+//@after "let rowval = &mut self.rowval"
             let ghost rsl = rowval@;
             let ghost nsl = nzval@;
             proof { assert(rsl == rvS.subrange(lo, hi)); assert(nsl == nzS.subrange(lo, hi)); }
@@ -1139,7 +1139,7 @@ it3
                     if c == gc { assert(cd(gc, d)); }
                 }
             }
-//@before "M.rowval.resize(writeidx, 0);"
+//@before "M.rowval.resize("
         let ghost cnts = M.colptr@;
         let ghost rv2 = M.rowval@;
         let ghost nz2 = M.nzval@;
@@ -1255,6 +1255,20 @@ it0
 }
 // names the pair (column, slot) — a trigger for clauses whose index terms contain arithmetic
 pub open spec fn cd(c: int, d: int) -> bool { true }
+// sanity of the two ASSUMED statements: each is satisfiable on an input that needs a real rearrangement and has a duplicate
+pub proof fn witness_sorted_input(a: F, b: F, c: F)
+    ensures sorted_input(seq![2usize, 1, 2], seq![1usize, 0, 1], seq![a, b, c], seq![1int, 0, 2], seq![1int, 0, 2], seq![1usize, 2, 2], seq![b, a, c]),
+{
+    reveal(stable_sorted);
+    lemma_perm_intro(seq![1int, 0, 2], seq![1int, 0, 2], 3);
+}
+pub proof fn witness_pairs_sorted(x: F, y: F, z: F)
+    ensures pairs_stably_sorted(seq![(3usize, x), (1usize, y), (3usize, z)], seq![(1usize, y), (3usize, x), (3usize, z)], seq![1int, 0, 2], seq![1int, 0, 2]),
+{
+    reveal(keys_stable);
+    lemma_perm_intro(seq![1int, 0, 2], seq![1int, 0, 2], 3);
+}
+
 // ---- src/algebra/utils.rs ----
 #[verifier::opaque]
 pub open spec fn injective(p: Seq<usize>) -> bool { forall|i: int, j: int| 0 <= i < j < p.len() ==> #[trigger] p[i] != #[trigger] p[j] }
